@@ -16,8 +16,12 @@ LEVEL = "exploration"
 K_TOL = 1024.0
 EPS = 2.0 ** -52
 KEY_HYP = "C03-hyperbolic-solver"
+KEY_HANG = "C03-hyperbolic-hang"
 KEY_512 = "C03-whfast512-large-step"
-HYP_C = 0.1          # known-finding region: hyperbolic and |dt|/P_|a| > HYP_C*(e-1)
+KEY_512_PAD = "C03-whfast512-padding-scale"
+HYP_C = 10.0         # known-finding region: hyperbolic and |dt|/P_|a| > HYP_C*(e-1)
+C512 = 0.2           # known-finding region of WHFast512: dt > C512 * min(T_q, 5 P_|a|), T_q = 2pi*sqrt(q^3/mu),
+                     # q = pericentre distance, P_|a| = 2pi*sqrt(|a|^3/mu)
 RULE = ("Two-body states generated from elements: e in [0,1-1e-6] u [1+1e-6,50], a and mu=G*M log-uniform over "
         "12 decades each, phase incl. exact peri/apocentre and (hyperbolic) close to the asymptotes, orientation, "
         "dt/P in +-[1e-8,1e3] log-uniform with extra mass on |dt|>P; entry points reb_whfast_kepler_solver "
@@ -38,9 +42,12 @@ ASSUMPTIONS = [
     "(star at rest at the origin); Jacobi and WHDS also for a massive one",
 ]
 CLASSES = ["direct/elliptic", "direct/hyperbolic", "direct/dt>P", "direct/dt>100P", "direct/peri_high_e",
-           "direct/dt<0", "direct/tiny_dt", "direct/near_parabolic", "direct/known_region",
-           "step/whfast:jacobi", "step/whfast:democraticheliocentric", "step/whfast:whds", "step/whfast:barycentric",
-           "step/saba", "step/mercurius", "step/trace", "step/massive_planet", "step512/whfast512"]
+           "direct/dt<0", "direct/tiny_dt", "direct/near_parabolic", "direct/known_region", "direct/known_hang",
+           "direct/loose_tolerance"] + \
+          ["step/%s:asserted" % k for k in ("whfast:jacobi", "whfast:democraticheliocentric", "whfast:whds",
+                                            "whfast:barycentric", "saba", "mercurius", "trace")] + \
+          ["step/massive_planet", "step/loose_tolerance", "step512/whfast512:asserted", "step512/padded",
+           "step512/known_region", "step512/known_padding_region"] + ["step512/lane%d" % i for i in range(8)]
 VARIANTS = ["avx512"]
 
 # ---------------------------------------------------------------------------------------------------------
@@ -93,7 +100,14 @@ def realise(c):
 
 
 def in_known_region(c):
+    if c.get("w512"):
+        e = c["e_hyp"] if c["hyp"] else c["e_ell"]
+        return abs(c["dtP"]) > C512 * min(abs(1.0 - e) ** 1.5, 5.0)
     return c["hyp"] and abs(c["dtP"]) > HYP_C * (c["e_hyp"] - 1.0)
+
+
+def region_key(c):
+    return KEY_512 if c.get("w512") else KEY_HYP
 
 
 # ---------------------------------------------------------------------------------------------------------
@@ -216,86 +230,343 @@ def _direct_call(arg):
     return (p.x, p.y, p.z, p.vx, p.vy, p.vz)
 
 
-def classify(c, e, f, ctx, prefix=""):
+def classify(c, e, f, ctx):
+    """Counts the classes of the case; returns True if the case is non-trivial by RULE."""
     dtP = c["dtP"]
     hyp = c["hyp"]
     nt = False
-    ctx.cls(prefix + ("hyperbolic" if hyp else "elliptic"))
+    ctx.cls("hyperbolic" if hyp else "elliptic")
     if hyp:
         nt = True
     if abs(dtP) > 1:
-        ctx.cls(prefix + "dt>P")
+        ctx.cls("dt>P")
         nt = True
     if abs(dtP) > 100:
-        ctx.cls(prefix + "dt>100P")
+        ctx.cls("dt>100P")
     if e > 0.9 and abs(f) < 0.1:
-        ctx.cls(prefix + "peri_high_e")
+        ctx.cls("peri_high_e")
         nt = True
     if dtP < 0:
-        ctx.cls(prefix + "dt<0")
+        ctx.cls("dt<0")
         nt = True
     if abs(dtP) < 1e-6:
-        ctx.cls(prefix + "tiny_dt")
+        ctx.cls("tiny_dt")
         nt = True
     if abs(e - 1) < 1e-3:
-        ctx.cls(prefix + "near_parabolic")
-    if nt:
-        ctx.nontrivial()
+        ctx.cls("near_parabolic")
+    return nt
 
 
 def finite6(v):
     return all(math.isfinite(x) for x in v)
 
 
-def judge(ctx, c, got, refr, refv, dpos, dvel, xs, vs, what, extra=None):
-    """Accuracy assertion shared by all entry points.  xs / vs: magnitudes whose rounding is unavoidable."""
+def judge(ctx, c, bodies, what, extra=None):
+    """Accuracy assertion shared by all entry points.  bodies: list of (name, got6, refr, refv, tpos, tvel) with
+    tpos/tvel the allowed error norms (already containing K).  Returns "asserted" | "loose" | "excluded"."""
     from ..oracles import c03_kepler_mp as KM
-    epos = KM.err_norm(refr, got[0:3])
-    evel = KM.err_norm(refv, got[3:6])
-    tpos = K_TOL * (dpos + EPS * xs)
-    tvel = K_TOL * (dvel + EPS * vs)
-    rp = epos * K_TOL / tpos
-    rv = evel * K_TOL / tvel
+    worst = 0.0
+    bad = None
+    loose = False
+    for name, got, refr, refv, tpos, tvel in bodies:
+        epos = KM.err_norm(refr, got[0:3])
+        evel = KM.err_norm(refv, got[3:6])
+        r = max(epos / tpos, evel / tvel) * K_TOL
+        if r > worst:
+            worst = r
+        if name != "star" and (tpos > 1e-3 * KM.norm(refr) or tvel > 1e-3 * KM.norm(refv)):
+            loose = True     # the orbit is so ill-conditioned over this step that the allowance is not sharp
+        if (epos > tpos or evel > tvel) and bad is None:
+            bad = dict(body=name, err_pos=epos, tol_pos=tpos, err_vel=evel, tol_vel=tvel, K=K_TOL, got=list(got),
+                       ref=[float(x) for x in refr] + [float(x) for x in refv])
     known = in_known_region(c)
-    if known and ctx.finding_open(KEY_HYP):
-        ctx.excluded(KEY_HYP)
+    if known and ctx.finding_open(region_key(c)):
+        ctx.excluded(region_key(c))
         ctx.cls("known_region")
-        ctx.stat_max("known_region_err_over_cond", max(rp, rv))
-        return
-    ctx.stat_max("err_over_cond_hyp" if c["hyp"] else "err_over_cond_ell", max(rp, rv))
-    if epos > tpos or evel > tvel:
-        d = dict(err_pos=epos, tol_pos=tpos, err_vel=evel, tol_vel=tvel, ratio_over_cond=max(rp, rv), K=K_TOL,
-                 got=list(got), ref=[float(x) for x in refr] + [float(x) for x in refv])
+        ctx.stat_max("known_region_err_over_unit_tol", worst)
+        return "excluded"
+    if not loose:
+        ctx.stat_max("err_over_unit_tol_hyp" if c["hyp"] else "err_over_unit_tol_ell", worst)
+    if bad is not None:
+        bad["ratio"] = worst
         if extra:
-            d.update(extra)
-        raise Violation("%s: state after the step differs from the exact Kepler orbit by %.3g x (delta_cond+eps|x|) "
-                        "(allowed %g)%s" % (what, max(rp, rv), K_TOL,
-                                            " [inside the known hyperbolic region]" if known else ""), **d)
+            bad.update(extra)
+        raise Violation("%s: %s differs from the exact Kepler orbit by %.3g x (delta_cond+eps|x|), allowed K=%g%s"
+                        % (what, bad["body"], worst, K_TOL,
+                           " [inside the known-finding region]" if known else ""), **bad)
+    if loose:
+        ctx.cls("loose_tolerance")
+        return "loose"
+    return "asserted"
+
+
+def not_returned(ctx, c, status, val, what, **details):
+    """A call that hung or died.  Inside the known hyperbolic region a hang is the recorded finding."""
+    known = in_known_region(c) and not c.get("w512")
+    if status == "hang" and known and ctx.finding_open(KEY_HANG):
+        ctx.excluded(KEY_HANG)
+        ctx.cls("known_hang")
+        return
+    raise Violation("%s %s: %s%s" % (what, "does not terminate" if status == "hang" else "crashed", val,
+                                     " [inside the known-finding region]" if known else ""), **details)
 
 
 def run_direct(c, ctx):
     from ..oracles import c03_kepler_mp as KM
     r0, v0, mu, dt, e, f = realise(c)
-    classify(c, e, f, ctx)
+    nt = classify(c, e, f, ctx)
     w = worker("direct", _direct_call)
     status, val = w.call(tuple(r0) + tuple(v0) + (mu, dt))
     if status != "ok":
-        raise Violation("reb_whfast_kepler_solver %s: %s%s" % (
-            "does not terminate" if status == "hang" else "crashed", val,
-            " [inside the known hyperbolic region]" if in_known_region(c) else ""),
-            r0=r0, v0=v0, mu=mu, dt=dt, e=e)
+        return not_returned(ctx, c, status, val, "reb_whfast_kepler_solver", r0=r0, v0=v0, mu=mu, dt=dt, e=e)
     if not finite6(val):
         raise Violation("reb_whfast_kepler_solver returns non-finite coordinates%s" % (
-            " [inside the known hyperbolic region]" if in_known_region(c) else ""),
+            " [inside the known-finding region]" if in_known_region(c) else ""),
             got=[repr(x) for x in val], r0=r0, v0=v0, mu=mu, dt=dt, e=e)
     refr, refv, dpos, dvel = KM.propagate_cond(r0, v0, mu, dt)
     xs = max(math.sqrt(sum(x * x for x in r0)), KM.norm(refr))
     vs = max(math.sqrt(sum(x * x for x in v0)), KM.norm(refv))
-    judge(ctx, c, val, refr, refv, dpos, dvel, xs, vs, "reb_whfast_kepler_solver",
-          extra=dict(r0=r0, v0=v0, mu=mu, dt=dt, e=e))
+    res = judge(ctx, c, [("state", val, refr, refv, K_TOL * (dpos + EPS * xs), K_TOL * (dvel + EPS * vs))],
+                "reb_whfast_kepler_solver", extra=dict(r0=r0, v0=v0, mu=mu, dt=dt, e=e))
+    if nt and res == "asserted":
+        ctx.nontrivial()
+
+
+# ---------------------------------------------------------------------------------------------------------
+# entry point 2: one reb_simulation_step of a two-body simulation
+
+# scheme -> (number of equal Kepler sub-steps the documented DKD / KDK structure applies in one step,
+#            exact two-body also for a massive planet)
+SCHEMES = {
+    "whfast:jacobi": (2, True),
+    "whfast:democraticheliocentric": (2, False),
+    "whfast:whds": (2, True),
+    "whfast:barycentric": (2, False),
+    "saba": (2, True),
+    "mercurius": (1, False),
+    "trace": (1, False),
+    "whfast512": (2, False),
+}
+G_CHOICES = [1.0, 4 * math.pi ** 2, 0.9, 6.674e-11, 2.959122082855911e-04]
+
+
+def step_case(schemes, g_choices, w512=False):
+    extra = {}
+    if w512:
+        # WHFast512: step in units of min(T_q, 5 P_|a|), T_q = 2pi sqrt(q^3/mu) the pericentre time scale (KEY_512);
+        # lane: which of the 8 vector lanes carries the planet under test (the others carry massless fillers on
+        # circular orbits); npl=1: a single planet, the other lanes are padded by the integrator itself
+        extra["dtq"] = st.one_of(S.logfloats(1e-6, C512), S.logfloats(1e-3, C512), S.logfloats(C512, 1e2),
+                                 st.sampled_from([0.01, 0.1, 0.19]))
+        extra["lane"] = st.integers(0, 7)
+        extra["npl"] = st.sampled_from([8, 8, 8, 1])
+    return st.fixed_dictionaries({
+        "orbit": orbit, **extra,
+        "scheme": st.sampled_from(schemes),
+        "G": st.sampled_from(g_choices),
+        "qm": st.one_of(st.just(0.0), S.logfloats(1e-9, 1.0)),      # planet/star mass ratio where exact
+        "safe_mode": st.sampled_from([1, 1, 0]),
+    })
+
+
+def _step_call(a):
+    import warnings
+    import rebound
+    warnings.simplefilter("ignore")
+    sim = rebound.Simulation()
+    sim.G = a["G"]
+    for p in a["particles"]:
+        sim.add(m=p[6], x=p[0], y=p[1], z=p[2], vx=p[3], vy=p[4], vz=p[5])
+    sch = a["scheme"]
+    if sch.startswith("whfast:"):
+        sim.integrator = "whfast"
+        sim.ri_whfast.coordinates = sch.split(":")[1]
+        sim.ri_whfast.safe_mode = a["safe_mode"]
+    elif sch == "saba":
+        sim.integrator = "saba"
+        sim.ri_saba.type = "1"
+        sim.ri_saba.safe_mode = a["safe_mode"]
+    elif sch == "mercurius":
+        sim.integrator = "mercurius"
+        sim.ri_mercurius.safe_mode = a["safe_mode"]
+    elif sch == "trace":
+        sim.integrator = "trace"
+        sim.ri_trace.S_peri = "none"
+    elif sch == "whfast512":
+        sim.integrator = "whfast512"
+        sim.exact_finish_time = 0
+    sim.dt = a["dt"]
+    sim.step()
+    enc = 0
+    if sch == "mercurius":
+        enc = sim.ri_mercurius._encounter_N
+    elif sch == "trace":
+        enc = sim.ri_trace._encounter_N
+    sim.synchronize()
+    out = []
+    for i in range(sim.N):
+        p = sim.particles[i]
+        out.append((p.x, p.y, p.z, p.vx, p.vy, p.vz))
+    return out, sim.t, enc
+
+
+PAD_R3 = 1.0e6       # WHFast512 pads unused lanes with particles at r ~ 100 (length units of the simulation)
+
+
+def run_step(c, ctx):
+    import mpmath
+    from mpmath import mpf
+    from ..oracles import c03_kepler_mp as KM
+    o = c["orbit"]
+    sch = c["scheme"]
+    nsub, massive_ok = SCHEMES[sch]
+    r0, v0, mu, dt, e, f = realise(o)
+    G = 1.0 if sch == "whfast512" else c["G"]
+    qm = c["qm"] if massive_ok else 0.0
+    m0 = mu / G / (1.0 + qm)
+    m1 = qm * m0
+    if not (1e-300 < m0 < 1e300):
+        ctx.skip("mass out of double range")
+        return
+    if sch == "whfast512":
+        # documented: WHFast512 supports dt>0 only; the step is drawn relative to the pericentre time scale
+        dtP = min(1e3, max(1e-8, c["dtq"] * min(abs(1.0 - e) ** 1.5, 5.0)))
+        P = abs(dt / o["dtP"])
+        o = dict(o, dtP=dtP, w512=True)
+        dt = dtP * P
+    nt = classify(o, e, f, ctx)
+    ctx.cls(sch)
+    if m1 > 0:
+        ctx.cls("massive_planet")
+        M = m0 + m1
+        star = [-(m1 / M) * x for x in r0] + [-(m1 / M) * x for x in v0] + [m0]
+        plan = [(m0 / M) * x for x in r0] + [(m0 / M) * x for x in v0] + [m1]
+    else:
+        star = [0.0] * 6 + [m0]
+        plan = list(r0) + list(v0) + [0.0]
+    parts = [star, plan]
+    ip = 1
+    if sch == "whfast512" and c["npl"] == 8:
+        # no padding: fill the other 7 lanes with massless planets on circular orbits outside the pericentre
+        # distance of the orbit under test (so they are inside WHFast512's good region whenever it is)
+        q = o["a"] * abs(1.0 - e) if e != 1.0 else o["a"]
+        q = max(q, 1e-3 * o["a"])
+        parts = [star]
+        k = 0
+        for lane in range(8):
+            if lane == c["lane"]:
+                parts.append(plan)
+                ip = len(parts) - 1
+                continue
+            R = q * (1.618 + 0.4142 * k)
+            th = 0.37 + k
+            vc = math.sqrt(mu / R)
+            parts.append([R * math.cos(th), R * math.sin(th), 0.123 * R, -vc * math.sin(th), vc * math.cos(th), 0.0, 0.0])
+            k += 1
+        ctx.cls("lane%d" % c["lane"])
+    elif sch == "whfast512":
+        ctx.cls("padded")
+        if dt > C512 * 2 * math.pi * math.sqrt(PAD_R3 / mu):
+            if ctx.finding_open(KEY_512_PAD):
+                ctx.excluded(KEY_512_PAD)
+                ctx.cls("known_padding_region")
+                return
+            o = dict(o, pad_region=True)
+    arg = {"G": G, "particles": parts, "scheme": sch, "safe_mode": c["safe_mode"], "dt": dt}
+    w = worker("step", _step_call)
+    status, val = w.call(arg)
+    if status != "ok":
+        return not_returned(ctx, o, status, val, "one step of %s" % sch, arg=arg)
+    out, t1, enc = val
+    s1, p1 = out[0], out[ip]
+    if enc >= 2:
+        # MERCURIUS / TRACE decided that the planet has a close encounter (with the star) during this step and
+        # integrated it with IAS15 / BS: the property speaks about steps away from encounters
+        ctx.skip("%s flagged an encounter: outside the domain" % sch)
+        return
+    if not all(finite6(x) for x in out):
+        if o.get("w512") and in_known_region(o) and ctx.finding_open(KEY_512):
+            ctx.excluded(KEY_512)
+            ctx.cls("known_region_nonfinite")
+            return
+        raise Violation("one step of %s yields non-finite coordinates%s%s" % (
+            sch, " [inside the known-finding region]" if in_known_region(o) else "",
+            " [dt large against the period of the padding particles]" if o.get("pad_region") else ""),
+            out=[[repr(x) for x in b] for b in out], arg=arg)
+    old = mpmath.mp.dps
+    mpmath.mp.dps = KM.DPS
+    try:
+        mm0, mm1, mG = mpf(m0), mpf(m1), mpf(G)
+        mM = mm0 + mm1
+        mum = mG * mM
+        rel_r = [mpf(plan[k]) - mpf(star[k]) for k in range(3)]
+        rel_v = [mpf(plan[3 + k]) - mpf(star[3 + k]) for k in range(3)]
+        com_r = [(mm0 * mpf(star[k]) + mm1 * mpf(plan[k])) / mM for k in range(3)]
+        com_v = [(mm0 * mpf(star[3 + k]) + mm1 * mpf(plan[3 + k])) / mM for k in range(3)]
+        mdt = mpf(dt)
+        n3 = lambda v: math.sqrt(sum(float(x) ** 2 for x in v))
+        if nsub == 1:
+            refr, refv, dpos, dvel = KM.propagate_cond(rel_r, rel_v, mum, mdt)
+            xs = max(n3(rel_r), n3(refr))
+            vs = max(n3(rel_v), n3(refv))
+            tpos, tvel = K_TOL * (dpos + EPS * xs), K_TOL * (dvel + EPS * vs)
+        else:
+            # DKD: two Kepler half steps.  The first may err by its own allowance E1 = K*(delta_cond1 + eps|x|);
+            # the second carries E1 to the end (oracle's own error propagation) and adds its own allowance.
+            hdt = mdt / 2
+            rm, vm, dp1, dv1 = KM.propagate_cond(rel_r, rel_v, mum, hdt)
+            e1p = K_TOL * (dp1 + EPS * max(n3(rel_r), n3(rm)))
+            e1v = K_TOL * (dv1 + EPS * max(n3(rel_v), n3(vm)))
+            rmf, vmf = [float(x) for x in rm], [float(x) for x in vm]
+            _, _, dp2, dv2 = KM.propagate_cond(rmf, vmf, mum, hdt)
+            sp, sv = KM.propagate_sens(rmf, vmf, mum, hdt, e1p, e1v)
+            refr, refv = KM.propagate(rel_r, rel_v, mum, mdt)
+            xs = max(n3(rm), n3(refr))
+            vs = max(n3(vm), n3(refv))
+            tpos, tvel = K_TOL * (dp2 + EPS * xs) + sp, K_TOL * (dv2 + EPS * vs) + sv
+        com1 = [com_r[k] + com_v[k] * mdt for k in range(3)]
+        ref_p = [com1[k] + (mm0 / mM) * refr[k] for k in range(3)], [com_v[k] + (mm0 / mM) * refv[k] for k in range(3)]
+        ref_s = [com1[k] - (mm1 / mM) * refr[k] for k in range(3)], [com_v[k] - (mm1 / mM) * refv[k] for k in range(3)]
+        fp, fs = float(mm0 / mM), float(mm1 / mM)
+    finally:
+        mpmath.mp.dps = old
+    if rb_dbits(t1) != rb_dbits(dt):
+        raise Violation("one step of %s from t=0 with dt=%r ends at t=%r" % (sch, dt, t1), arg=arg)
+    if m1 > 0:
+        # inertial frame: conversions to/from Jacobi/heliocentric coordinates and the centre-of-mass drift round
+        # at the size of the inertial coordinates
+        xi = max(n3(star[0:3]), n3(plan[0:3]), n3(s1[0:3]), n3(p1[0:3])) + max(n3(star[3:6]), n3(plan[3:6])) * abs(dt)
+        vi = max(n3(star[3:6]), n3(plan[3:6]), n3(s1[3:6]), n3(p1[3:6]))
+        bodies = [("planet", p1, ref_p[0], ref_p[1], fp * tpos + K_TOL * EPS * xi, fp * tvel + K_TOL * EPS * vi),
+                  ("star", s1, ref_s[0], ref_s[1], fs * tpos + K_TOL * EPS * xi, fs * tvel + K_TOL * EPS * vi)]
+    else:
+        if any(x != 0.0 for x in s1):
+            raise Violation("one step of %s with a massless planet moved the star, initially at rest at the origin"
+                            % sch, star=list(s1), arg=arg)
+        bodies = [("planet", p1, ref_p[0], ref_p[1], tpos, tvel)]
+    res = judge(ctx, o, bodies, "one step of %s" % sch, extra=dict(arg=arg, nominal_e=e, planet_index=ip))
+    if res == "asserted":
+        ctx.cls(sch + ":asserted")
+        if nt:
+            ctx.nontrivial()
+
+
+def rb_dbits(x):
+    return struct.unpack("<Q", struct.pack("<d", x))[0]
+
+
+def prepare(tier):
+    from ..oracles import c03_kepler_mp as KM
+    w = KM.selftest()
+    if not w < 1e-50:
+        raise RuntimeError("C03 oracle self-test failed: %g" % w)
 
 
 def subs(tier):
     return [
         Sub("direct", run_direct, strategy=orbit, quick=4000, thorough=120000, shards_quick=8, shards_thorough=16),
+        Sub("step", run_step, strategy=step_case([k for k in SCHEMES if k != "whfast512"], G_CHOICES),
+            quick=1600, thorough=40000, shards_quick=8, shards_thorough=16),
+        Sub("step512", run_step, strategy=step_case(["whfast512"], [1.0], w512=True), variant="avx512",
+            quick=800, thorough=16000, shards_quick=4, shards_thorough=8),
     ]
